@@ -51,3 +51,17 @@ def count_rules(ctx, rep, P):
                     rep.check(P + ".count", "%s::%s folds the checksum over buf[0..amt], the bytes actually transferred" % (st.strip("^$"), meth), good2 and bool(upd), loc_of(cb), "",
                               "the checksum is folded over bytes other than the ones the inner stream transferred (whole buffer instead of buf[0..amt]): short reads/writes corrupt the CRC")
     rep.floor(P + ".count", "I/O adaptors", n, 4)
+    # the block-size limiter of the metadata reader
+    lr = [b for b in F.bodies if b.promoted is None and re.search(r"LimitedReader<R> as std::io::Read>::read$", b.path)]
+    if not lr:
+        rep.bad(P + ".count", "anchor:LimitedReader::read", "", "not found")
+    for b in lr[:1]:
+        mins = [t for _, t in b.calls() if re.search(r"Ord::min$|cmp::min$", callee_name(t))]
+        cl = F.closures_of(b)
+        subs = [s for c in cl for bl in c.blocks for s in bl["s"] if s["rv"]["r"] == "bin" and s["rv"]["op"].startswith("Sub")]
+        subs += [t for c in cl for _, t in c.calls() if re.search(r"SubAssign<.*>>::sub_assign$", callee_name(t))]
+        in_parent = [s for bl in b.blocks for s in bl["s"] if s["rv"]["r"] == "bin" and s["rv"]["op"].startswith("Sub")]
+        in_parent += [t for _, t in b.calls() if re.search(r"SubAssign<.*>>::sub_assign$", callee_name(t))]
+        insp = [t for _, t in b.calls() if re.search(r"Result::<T, E>::inspect$", callee_name(t))]
+        rep.check(P + ".count", "LimitedReader: the remaining block size shrinks by the bytes actually read", len(mins) == 1 and len(subs) == 1 and not in_parent and len(insp) == 1, loc_of(b), "",
+                  "the metadata block limiter no longer accounts the bytes returned by the inner read: a source that splits its reads ends the block early")
